@@ -15,7 +15,8 @@ SETUP = "\n".join([
 ])
 
 LITS = ["1", "2", "3", "4", "10", "0.5", "1.5", "2.25", "100", "7", "0.125", "2e3", "1_000"]
-STRS = ["abc", "a b", "", "x\\ny", "tab\\there", "q\\\"q", "{{braces}}", "back\\\\slash", "ünï °C", "a\\0b", "per cent %"]
+STRS = ["abc", "a b", "", "x\\ny", "tab\\there", "q\\\"q", "{{braces}}", "back\\\\slash", "ünï °C", "a\\0b", "per cent %",
+        "end\\\\", "a\\\\nb", "\\\\\\\"q"]
 
 
 class Gen:
